@@ -189,6 +189,14 @@ def handle (model : String) : List String → String
     else if returned ≠ "closereturned=true" then "SPEC key=close-blocked-by-stuck-write"
     else if results ≠ "results=1" then s!"SPEC key=stranded-blocked-write {results}"
     else "OK tags=script,blocked-write-close"
+  | ["script", "read-timeout", kind, configured, got, lookup] =>
+    -- the timeout a connection arms its read deadline with is the configured RegionReadTimeout
+    if configured.startsWith "setup-failed" then s!"DIFF harness: read-timeout scenario for {kind}: {configured} {got}"
+    else if dropS configured 11 ≠ dropS got 4 then
+      s!"SPEC key=read-timeout-not-the-configured-one-{kind} {configured} {got} {lookup}"
+    else s!"OK tags=script,read-timeout,{kind}"
+  | ["script", "read-timeout", kind, failed, conns] =>
+    s!"DIFF harness: read-timeout scenario for {kind}: {failed} {conns}"
   | ["script", "deadline", answered, ares, armed, moved, late] =>
     -- C18: a silent server is detected within the read timeout of the last request *sent*
     let lateMs := ((String.ofList (late.toList.drop 8)).toInt?).getD 0
